@@ -30,6 +30,15 @@ Bounded run-time contract check on the real readers.
                         + hostile text: ~30 reader problems x every key of a dictionary that uses every key of the format
                         (and unknown keys NAMED by the text, the value list items, odml-version) x the texts above plus C0
                         control characters; tuples as wrong-typed values (a tuple as sole %-argument is spread)
+                        + keys that are no text (section "keys that are no text" below) at every mapping level (top level,
+                        Document, Section, sub Section, Property, mapping in place of / inside the value list), mixed with
+                        the valid text keys (last / first) or alone: Python dictionaries with int, float, nan, bool, None,
+                        tuple, bytes, date / datetime / time, frozenset, complex keys and groups of keys without an order
+                        between them for DictReader; YAML texts with every YAML 1.1 spelling that yields such a key (on /
+                        off / yes / no, numbers in all bases, sexagesimals, .inf / .nan, ~ / null / empty key, timestamps,
+                        !!int / !!bool / !!null / !!float / !!binary / !!timestamp / !!str tags, explicit '?' keys), duplicate
+                        keys, keys equal across types, merge keys (inline, aliased, lists, nested, repeated), anchored
+                        keys and their aliases as keys
 
 Contract clauses (from the statement):
   only-ParserException   the call returns a Document or raises ParserException - no other exception type
@@ -2222,6 +2231,289 @@ def _dict_hostile(tier, rnd):
             yield c
 
 
+# ---- keys that are no text, at every mapping level ------------------------------------------------------------
+#
+# The KEYS of the mappings of an odML dictionary need not be text.  YAML 1.1 reads the bare words on / off / yes / no /
+# true / false as booleans, bare numbers as int / float, ~ / null / an empty key as None, bare dates as date objects,
+# !!binary as bytes; a Python dictionary handed to DictReader can carry any hashable key.  Such a key is an unknown
+# element of the mapping that holds it - nothing else.  From the statement: strict -> a Document or ParserException;
+# lenient (input has a Document mapping and the current version) -> no exception, the unknown key of a Document /
+# Section / Property mapping is recorded as a warning, every object outside the mapping that holds the key is kept.
+# Levels: top level, Document, Section, sub Section, Property, Property of the sub Section, a mapping in place of the
+# value list, a mapping as item of the value list.  The key is mixed with the valid text keys (put last / first) or
+# stands alone; several keys of types that cannot be ordered against each other; duplicate keys, merge keys,
+# anchors / aliases as keys, tagged keys, complex keys through YAML text.
+
+NONTEXT_KEYS = [
+    ('int 1', 1), ('int 0', 0), ('int -7', -7), ('int 10**20', 10 ** 20), ('float 1.5', 1.5), ('float nan', float('nan')),
+    ('float inf', float('inf')), ('bool True', True), ('bool False', False), ('None', None), ('tuple ()', ()),
+    ('tuple (1, 1)', (1, 1)), ("tuple ('name',)", ('name',)), ("tuple ('a', 'b')", ('a', 'b')),
+    ("bytes b'name'", b'name'), ("bytes b'foo'", b'foo'), ('bytes not UTF-8', b'\xff\xfe'),
+    ('date', dt.date(2020, 1, 2)), ('datetime', dt.datetime(2020, 1, 2, 3, 4, 5)), ('time', dt.time(1, 2, 3)),
+    ('frozenset', frozenset([1])), ('complex', 1j), ('Ellipsis', Ellipsis)]
+NONTEXT_QUICK = ('int 1', 'float 1.5', 'bool True', 'None', 'tuple (1, 1)', "bytes b'name'", 'date')
+# several keys at once: types without an order between them (or with themselves), and an ordinary same-type pair
+NONTEXT_GROUPS = [
+    ('None + int', [None, 1]), ('bool + None', [True, None]), ('tuple + float', [(1, 1), 1.5]), ('bytes + int', [b'foo', 2]),
+    ('date + datetime', [dt.date(2020, 1, 2), dt.datetime(2020, 1, 2, 3, 4, 5)]), ('nan + int', [float('nan'), 1]),
+    ('two ints', [1, 2]), ('two bools', [True, False]), ('complex + complex', [1j, 2j]),
+    ('frozenset + frozenset', [frozenset([1]), frozenset([2])]), ('tuple of text + tuple of int', [('a',), (1,)]),
+    ('one of every kind', [1, 1.5, None, (1, 1), b'foo', dt.date(2020, 1, 2), dt.time(1, 2, 3), frozenset([1]), 1j])]
+NONTEXT_VALUES = [('text', 'x'), ('list', ['x']), ('mapping', {'name': 'n', 'type': 't'}), ('None', None), ('int', 5),
+                  ('list of mappings', [{'name': 'n', 'type': 't'}])]
+D_LEVELS = ['top level'] + list(D_SLOTS) + ['mapping as value of p1', 'mapping as value item of p1']
+
+
+def _put_keys(node, pairs, place):
+    if place == 'only':
+        node.clear()
+    if place == 'first':
+        old = dict(node)
+        node.clear()
+    for k, v in pairs:
+        node[k] = copy.deepcopy(v)
+    if place == 'first':
+        for k, v in old.items():
+            node.setdefault(k, v)
+
+
+def _key_level(d, level, pairs, place):
+    """Plants the (key, value) pairs at one level of the base dictionary d.  Returns (problem, keep)."""
+    p1_path = (('S', 's1'), ('P', 'p1'))
+    if level == 'top level':
+        _put_keys(d, pairs, place)
+        return False, D_BASE_PATHS
+    if level.startswith('mapping as value'):
+        holder = {'a': 'y'}
+        _put_keys(holder, pairs, place)
+        D_SLOTS['Property s1:p1'][0](d)['value'] = holder if level == 'mapping as value of p1' else [holder]
+        return False, D_BASE_PATHS - {p1_path}
+    get, kind, inside = D_SLOTS[level]
+    _put_keys(get(d), pairs, place)
+    keep = D_BASE_PATHS - inside
+    if kind == 'Document' and place == 'only':
+        keep = set()
+    return True, keep
+
+
+def _dict_keys_py(tier):
+    """Python dictionaries with non-text keys for DictReader (and, where YAML can say it, the YAML entry points)."""
+    quick = tier == 'quick'
+    for level in D_LEVELS:
+        main = level in ('Section s1', 'Property s1:p1')
+        for klabel, key in NONTEXT_KEYS:
+            if quick and not main and klabel not in NONTEXT_QUICK:
+                continue
+            for place in ('last', 'first', 'only'):
+                if place == 'only' and level == 'top level':
+                    continue                    # without 'Document' and the version it is no odML dictionary any more
+                if quick and place != 'last' and not (main and klabel in NONTEXT_QUICK):
+                    continue
+                for vlabel, val in NONTEXT_VALUES:
+                    if vlabel != 'text' and (place != 'last' or klabel not in NONTEXT_QUICK or (quick and not main)):
+                        continue
+                    d = _d_base()
+                    problem, keep = _key_level(d, level, [(key, val)], place)
+                    c = _dcase(d, 'nontext-key', '%s | key %s, %s | value %s' % (level, klabel, place, vlabel),
+                               problem=problem, keep=keep)
+                    c['yaml'] = not quick or place == 'last'
+                    yield c
+        for glabel, keys in NONTEXT_GROUPS:
+            for place in ('last', 'first', 'only'):
+                if place == 'only' and level == 'top level' or (quick and (place != 'last' or not main)):
+                    continue
+                d = _d_base()
+                problem, keep = _key_level(d, level, [(k, 'x') for k in keys], place)
+                c = _dcase(d, 'nontext-key', '%s | keys %s, %s' % (level, glabel, place), problem=problem, keep=keep)
+                c['yaml'] = not quick
+                yield c
+    # a non-text key in every mapping at once
+    d = _d_base()
+    for level in D_LEVELS[:-1]:
+        _key_level(d, level, [(True, 'x'), (None, 'y'), (1.5, 'z')], 'last')
+    yield _dcase(d, 'nontext-key', 'every level at once | keys True, None, 1.5, last', problem=True, keep=set())
+
+
+# YAML spellings of one key (source text): what they denote is found by the generator's own YAML loader
+YAML_KEY_SPELLINGS = [
+    ('boolean', ['on', 'On', 'ON', 'off', 'Off', 'OFF', 'yes', 'Yes', 'YES', 'no', 'No', 'NO', 'y', 'Y', 'n', 'N', 'true',
+                 'True', 'TRUE', 'false', 'False', 'FALSE']),
+    ('integer', ['1', '0', '-7', '+3', '-0', '017', '0o17', '0x1F', '0b101', '1_000', '190:20:30', '100000000000000000000']),
+    ('float', ['1.5', '-.5', '1.', '1e3', '1.0e+3', '.inf', '-.INF', '+.Inf', '.nan', '.NaN', '190:20:30.15', '1_0.5']),
+    ('null', ['~', 'null', 'Null', 'NULL', '? ']),          # '? ' = the explicit empty key
+    ('timestamp', ['2020-01-02', '2020-01-02 03:04:05', '2020-01-02T03:04:05Z', '2020-01-02t03:04:05.5+02:00', '2020-1-2',
+                   '2001-12-14 21:59:43.10 -5']),
+    ('tagged', ['!!int "3"', '!!int 0x10', '!!bool "yes"', '!!bool on', '!!null ""', '!!null x', '!!float "1.5"', '!!float 1',
+                '!!binary "bmFtZQ=="', '!!binary Zm9v', '!!binary "//4="', '!!timestamp "2020-01-02"', '!!timestamp 2020-01-02',
+                '!!str 1', '!!str on', '!!str ~', '!!str 2020-01-02', '! on', '!!int "1_0"']),
+    ('quoted (text after all)', ['"on"', "'yes'", '"1"', "'~'", '"2020-01-02"', '"<<"', '"1.5"', '""']),
+    ('complex', ['? on', '? 1', '? ~', '? !!int "3"', '? 2020-01-02', '? "on"', '? [1, 2]', '? {a: b}', '? - 1',
+                 '? !!python/tuple [1, 2]', '? !!set {a}', '? |\n  block']),
+]
+YAML_KEY_QUICK = ('on', 'n', '1', '0x1F', '1.5', '.nan', '~', '? ', '2020-01-02', '!!binary "bmFtZQ=="', '!!str on', '"on"', '? on')
+# several entries at once: (label, [(key source, value source)])
+YAML_KEY_GROUPS = [
+    ('same bool key twice', [('on', 'a'), ('on', 'b')]),
+    ('two spellings of one bool key', [('on', 'a'), ('true', 'b')]),
+    ('keys equal across types', [('1', 'a'), ('1.0', 'b'), ('true', 'c')]),
+    ('two spellings of the null key', [('~', 'a'), ('null', 'b')]),
+    ('null key and empty key', [('? ', 'a'), ('~', 'b')]),
+    ('text key repeated beside a bool key', [('name', 'dup'), ('on', 'x')]),
+    ('value key repeated beside an int key', [('value', '[y]'), ('1', 'x')]),
+    ('one key of every kind', [('on', 'x'), ('off', 'y'), ('~', 'z'), ('1', 'w'), ('1.5', 'v'), ('2020-01-02', 'u'),
+                               ('2020-01-02 03:04:05', 't'), ('!!binary Zm9v', 's')]),
+    ('bool key with list value', [('on', '[x]')]),
+    ('int key with mapping value', [('1', '{name: n, type: t}')]),
+    ('null key with null value', [('~', '')]),
+    ('bool key with list of mappings', [('yes', '[{name: q, type: t}]')]),
+    ('bool key with mapping with bool keys', [('on', '{off: {~: [1, {2: 3}]}}')]),
+    ('merge of a mapping with a bool key', [('<<', '{on: x}')]),
+    ('merge of a mapping with a text key', [('<<', '{foo: x}')]),
+    ('merge of a mapping with name and a bool key', [('<<', '{name: other, on: x}')]),
+    ('merge of a list of mappings', [('<<', '[{on: x}, {2: y, ~: z}]')]),
+    ('merge of an empty list', [('<<', '[]')]),
+    ('nested merge', [('<<', '{<<: {off: x}}')]),
+    ('merge of an aliased mapping', [('foo', '&m {on: x, 2: y}'), ('<<', '*m')]),
+    ('merge of a list with aliases', [('foo', '&m {on: x}'), ('bar', '&n {~: y}'), ('<<', '[*m, *n]')]),
+    ('merge key twice', [('<<', '{on: x}'), ('<<', '{off: y}')]),
+    ('merge of no mapping', [('<<', '5')]),
+    ('merge of a list of no mappings', [('<<', '[5]')]),
+    ('merge beside a bool key', [('on', 'x'), ('<<', '{1: y}')]),
+    ('anchored bool key and its alias as key', [('&k on', 'x'), ('*k ', 'y')]),
+    ('anchored text key and its alias as key', [('&k foo', 'x'), ('*k ', 'y')]),
+    ('anchored bool key, alias as its value', [('&k on', '*k')]),
+    ('anchored null key', [('&k ~', 'x'), ('foo', '*k')]),
+    ('anchored int key, alias as item of a list', [('&k 1', 'x'), ('foo', '[*k, *k]')]),
+]
+YAML_GROUPS_QUICK = ('same bool key twice', 'keys equal across types', 'one key of every kind', 'merge of a mapping with a bool key',
+                     'merge of an aliased mapping', 'anchored bool key and its alias as key')
+
+
+def _y_base():
+    """The base dictionary as a tree of YAML source: ['map', [(key source, node)]] | ['seq', [node]] | scalar source."""
+    p1 = ['map', [('name', 'p1'), ('value', '[x]'), ('type', 'string'), ('id', UUIDS[3])]]
+    p2 = ['map', [('name', 'p2'), ('value', '[1, 2]'), ('type', 'int')]]
+    s2 = ['map', [('name', 's2'), ('type', 't'), ('properties', ['seq', [p2]])]]
+    s1 = ['map', [('name', 's1'), ('type', 't'), ('id', UUIDS[2]), ('definition', 'd'), ('properties', ['seq', [p1]]),
+                  ('sections', ['seq', [s2]])]]
+    s3 = ['map', [('name', 's3'), ('type', 't')]]
+    doc = ['map', [('author', 'me'), ('version', "'1'"), ('date', "'2020-01-02'"), ('id', UUIDS[1]),
+                   ('sections', ['seq', [s1, s3]])]]
+    top = ['map', [('odml-version', "'%s'" % CURRENT), ('Document', doc)]]
+    return top, {'top level': top, 'Document': doc, 'Section s1': s1, 'Section s1/s2': s2, 'Property s1:p1': p1,
+                 'Property s1/s2:p2': p2}
+
+
+def _y_lines(node, ind=0):
+    pad = ' ' * ind
+    out = []
+    if node[0] == 'map':
+        for key, val in node[1]:
+            if key.startswith('? '):            # complex key: on its own line(s), the value follows ': '
+                out.extend(pad + ln for ln in key.split('\n'))
+                head = pad + ':'
+            else:
+                head = pad + key + ':'
+            if isinstance(val, str):
+                out.append(head + (' ' + val if val else ''))
+            else:
+                out.append(head)
+                out.extend(_y_lines(val, ind + 2))
+    else:
+        for val in node[1]:
+            if isinstance(val, str):
+                out.append(pad + '- ' + val)
+            else:
+                out.append(pad + '-')
+                out.extend(_y_lines(val, ind + 2))
+    return out
+
+
+_Y_SKIPPED = {'n': 0}
+
+
+def _ycase(level, pairs, place, label):
+    """One YAML text with the (key source, value source) pairs at `level`; None when the generator's own loader does not
+    read the text as a mapping with a 'Document' mapping (then the facts of the case are not established)."""
+    top, nodes = _y_base()
+    if level.startswith('mapping as value'):
+        holder = ['map', [('a', 'y')]]
+        p1 = nodes['Property s1:p1']
+        p1[1] = [(k, v) if k != 'value' else (k, holder if level == 'mapping as value of p1' else ['seq', [holder]])
+                 for k, v in p1[1]]
+        node = holder
+    else:
+        node = nodes[level]
+    if place == 'last':
+        node[1] = node[1] + list(pairs)
+    elif place == 'first':
+        node[1] = list(pairs) + node[1]
+    else:
+        node[1] = list(pairs)
+    text = '\n'.join(_y_lines(top)) + '\n'
+    try:
+        data = yaml.load(text, Loader=_YLOADER)
+        ok = isinstance(data, dict) and isinstance(data.get('Document'), dict)
+        if ok and _YLOADER is not yaml.SafeLoader:      # libyaml and the Python loader have to read the same from it
+            ok = _canon(yaml.load(text, Loader=yaml.SafeLoader)) == _canon(data)
+    except Exception:                            # noqa  (ValueError for a date that does not exist, ...)
+        ok = False
+    if not ok:
+        _Y_SKIPPED['n'] += 1
+        _Y_SKIPPED.setdefault('labels', set()).add(label)
+        return None
+    # facts of the case from the loaded data: which mapping holds the keys, what lies outside it
+    problem, keep = False, None
+    try:
+        if level == 'top level':
+            touched = []
+        elif level.startswith('mapping as value'):
+            touched = [D_SLOTS['Property s1:p1'][0](data)]
+        else:
+            holder = D_SLOTS[level][0](data)
+            touched = [] if level == 'Document' else [holder]
+            problem = isinstance(holder, dict) and any(not isinstance(k, str) for k in holder)
+        if all(isinstance(x, dict) for x in touched):
+            keep = _d_paths(data, touched)
+    except (KeyError, IndexError, TypeError):
+        keep = None
+    c = _dcase(data, 'nontext-key-yaml', '%s | %s, %s' % (level, label, place), problem=problem, keep=keep)
+    c['ytext'] = text
+    c['yaml'] = False                          # no second text dumped from the data
+    c['witness'] = {'yaml': text, 'loads as': repr(data)[:500]}
+    return c
+
+
+def _dict_keys_yaml(tier):
+    quick = tier == 'quick'
+    _Y_SKIPPED['n'] = 0
+    for level in D_LEVELS:
+        main = level in ('Section s1', 'Property s1:p1')
+        for kind, spellings in YAML_KEY_SPELLINGS:
+            for sp in spellings:
+                if quick and not main and sp not in YAML_KEY_QUICK:
+                    continue
+                for place in ('last', 'first', 'only'):
+                    if place == 'only' and level == 'top level':
+                        continue
+                    if (quick or not main) and place != 'last' and sp not in YAML_KEY_QUICK:
+                        continue
+                    if quick and place != 'last' and not main:
+                        continue
+                    c = _ycase(level, [(sp, 'x')], place, '%s key %s' % (kind, sp.replace('\n', '\\n') or '(empty)'))
+                    if c is not None:
+                        yield c
+        for glabel, pairs in YAML_KEY_GROUPS:
+            if quick and not (main or glabel in YAML_GROUPS_QUICK):
+                continue
+            for place in ('last', 'first'):
+                if quick and place != 'last':
+                    continue
+                c = _ycase(level, pairs, place, glabel)
+                if c is not None:
+                    yield c
+
+
 def _rand_dict(rnd):
     def scalar(key):
         pool = WRONG + _d_pool(key) * 3 + ['v', 'w', 't', 'a', 'b'] + RAND_HOSTILE[:3]
@@ -2426,7 +2718,11 @@ def run_dict(tier, seed):
              'line ends x valid/other version/large, 36 file names, through from_file and odml.load with path str and '
              'pathlib.Path, decoded text through from_string; hostile text: ~30 reader problems x every key of a '
              'dictionary using every key (and unknown keys named by the text, value items, odml-version) x ~55 texts '
-             '(as for XML + C0 controls); tuples among the wrong-typed values; '
+             '(as for XML + C0 controls); tuples among the wrong-typed values; non-text keys: 8 mapping levels x 23 '
+             'Python key objects (and 12 groups of keys without mutual order) x last/first/alone x 6 value shapes, and '
+             'hand-written YAML texts: 8 levels x ~95 key spellings of YAML 1.1 (bool, int, float, null, timestamp, tagged, '
+             'quoted, explicit) + 30 duplicate / merge / anchor-alias groups x last/first/alone (texts the generator\'s '
+             'libyaml and Python loaders do not both read as the same odML dictionary are skipped); '
              'class = (family, feature, content checksum, entry)',
         exhaustive=False)
     rnd = random.Random('c16-dict-%s' % seed)
@@ -2442,6 +2738,10 @@ def run_dict(tier, seed):
             yield _dcase(_rand_dict(rnd), 'random-dict', 'random dictionary over the odML keys')
         for c in _dict_hostile(tier, random.Random('c16-dict-hostile-%s' % seed)):
             yield c
+        for c in _dict_keys_py(tier):
+            yield c
+        for c in _dict_keys_yaml(tier):
+            yield c
 
     try:
         with _silence():
@@ -2449,13 +2749,13 @@ def run_dict(tier, seed):
                 _classify_dict(case)
                 data = case['data']
                 jtext = ytext = None
-                if not _has_py_objects(data):
+                if 'ytext' not in case and not _has_py_objects(data):
                     try:
                         jtext = json.dumps(data)
                     except (TypeError, ValueError):
                         jtext = None
                 try:
-                    ytext = yaml.dump(data, Dumper=_YDUMPER, sort_keys=False)
+                    ytext = yaml.dump(data, Dumper=_YDUMPER, sort_keys=False) if case.get('yaml', True) else None
                 except Exception:                # noqa
                     ytext = None
                 if tier == 'quick' and ((case['fam'] == 'set-key' and ci % 8) or (case['fam'] == 'random-dict' and ci % 2)
@@ -2477,6 +2777,8 @@ def run_dict(tier, seed):
                             ytext = None
                     except Exception:            # noqa
                         ytext = None
+                if 'ytext' in case:
+                    ytext = case['ytext']        # written by hand; case['data'] is what the generator's loader reads from it
                 if jtext is not None:
                     with open(jpath, 'w') as fh:
                         fh.write(jtext)
@@ -2524,4 +2826,7 @@ def run_dict(tier, seed):
                 _run_dict_file(col, chk, item, fpath)
     finally:
         _cleanup()
-    return _result(col, chk)
+    res = _result(col, chk)
+    res['yaml_key_texts_skipped_because_the_generators_loader_reads_no_odml_dictionary'] = \
+        [_Y_SKIPPED['n'], sorted(_Y_SKIPPED.get('labels', ()))]
+    return res
